@@ -268,6 +268,16 @@ def gen_ledger(rng, ntxn=10, with_queries=True, with_pad=True, start_year=2019, 
             f'{ed} * "the same commodity with and without cost in one account"',
             '  Assets:Crypto   1 BTC.X @ 1000.00 USD',
             '  Assets:Cash  -1000.00 USD',
+            f'{open_date} open Assets:Twin:A',
+            f'{open_date} open Assets:Twin:B',
+            f'{open_date} open Expenses:Twin:A',
+            f'{open_date} open Expenses:Twin:B',
+            f'{ed} * "two accounts with the same balance, two with the same activity"',
+            '  Assets:Twin:A   700.00 USD',
+            '  Assets:Twin:B   700.00 USD',
+            '  Expenses:Twin:A   30.00 USD',
+            '  Expenses:Twin:B   30.00 USD',
+            '  Equity:Opening',
             f'{ed} custom "budget" Expenses:Food "monthly" 250.00 USD TRUE {ed}',
             f'{ed} note Assets:Épargne:Livret-A "same day, first"',
             f'{ed} note Assets:Épargne:Livret-A "same day, second"',
